@@ -78,7 +78,15 @@ def main():
             env = dict(ENV, VERIF_ROOT=outroot, VERIF_TIER=os.environ.get("VERIF_TIER", "quick"))
             for c in (checks_override or m.get("checks", [])):
                 t0 = time.time()
-                rc, out = run([binp, c], cwd=ROOT, env=env)
+                if c == "c20":
+                    tb = os.path.join(tmp, "watchmc.test")
+                    rc, out = run(["go1.26", "test", "-tags", "verif", "-overlay", ov, "-c", "-o", tb, "./watchmc"], cwd=ROOT)
+                    if rc == 0:
+                        os.makedirs(os.path.join(outroot, "bin"), exist_ok=True)
+                        rc, out = run([tb, "-test.run", "TestC20$", "-test.count=1", "-test.timeout", "30m"], cwd=os.path.join(ROOT, "watchmc"), env=dict(env, VERIF_C20_RACE="skipped"))
+                        rc = 1 if "VIOLATION property=" in out else (0 if rc == 0 else rc)
+                else:
+                    rc, out = run([binp, c], cwd=ROOT, env=env)
                 viol = [l for l in out.splitlines() if l.startswith("VIOLATION")]
                 rules = sorted(set(l.strip().split(" ")[0] for l in out.splitlines() if l.strip().startswith("rule=")))
                 verdict = "CAUGHT" if rc == 1 and viol else ("MISSED" if rc == 0 else f"ERROR(rc={rc})")
